@@ -243,6 +243,38 @@ func genC18(o *Out, rng *rand.Rand, tier string) {
 		}()
 		o.Emit(rec, "client4-makeraw", p, true)
 	}
+	// ---- read direction: one well-formed frame (with and without IP options / padding) cut at every offset
+	for _, ihl := range []int{5, 6, 15} {
+		fs := frameSpec{version: 4, ihl: ihl, proto: 17, src: net.IPv4(10, 0, 0, 9).To4(), dst: net.IPv4bcast.To4(), sport: 67, dport: 68,
+			payload: randBytes(rng, 40), pad: 6, cut: -1}
+		full := fs.build(rng)
+		for cut := 1; cut <= len(full); cut++ {
+			f := full[:cut]
+			sc := &scriptConn{frames: [][]byte{f, full}}
+			c := nclient4.NewBroadcastUDPConn(sc, &net.UDPAddr{Port: 68})
+			res := []any{}
+			rec := map[string]any{"op": "R", "frames": []any{B(f), B(full)}, "buflen": 1500, "bound": map[string]any{"ip": []int{}, "port": 68}}
+			func() {
+				defer func() {
+					if r := recover(); r != nil {
+						rec["panic"] = fmt.Sprint(r)
+					}
+				}()
+				for {
+					b := make([]byte, 1500)
+					n, addr, err := c.ReadFrom(b)
+					if err != nil {
+						rec["end"] = errors.Is(err, errScriptEnd)
+						return
+					}
+					u := addr.(*net.UDPAddr)
+					res = append(res, map[string]any{"payload": B(b[:n]), "src": endpoint(u.IP, u.Port)})
+				}
+			}()
+			rec["res"] = res
+			o.Emit(rec, "read-truncated-at-every-offset", append([]byte{byte(ihl), byte(cut)}, f...), true)
+		}
+	}
 	// ---- read direction: sequences of frames
 	for i := 0; i < nR; i++ {
 		var boundIP net.IP
